@@ -7,6 +7,7 @@ environment attribute the lexer construction reads; compile_rules orders start d
 longest first; babel_extract's positional Environment(...) call lines up; overlays get a
 fresh cache and re-bound extensions; spontaneous environments are marked shared.
 Also: get_lexer returns only what it obtained under the key and stores nothing on the environment; newline_re matches exactly the three line-break forms; one notion of whitespace.  
+Also: delimiter / prefix strings are interpolated into patterns only as re.escape(<string>).  
 Not decided: equality of rendered output across configurations.
 """
 
